@@ -417,7 +417,7 @@ fn cpython_producer(ctx: &mut crate::util::Ctx, thorough: bool) {
     let dir = crate::foreign::scratch_root().join(format!("zipmc-{}-c03py", std::process::id()));
     let _ = std::fs::remove_dir_all(&dir);
     let mut cmd = std::process::Command::new("python3");
-    cmd.arg(format!("{}/pyref/mkforeign.py", crate::util::VERIF_ROOT)).arg(&dir);
+    cmd.arg(format!("{}/pyref/mkforeign.py", crate::util::verif_root())).arg(&dir);
     if thorough {
         cmd.arg("--thorough");
     }
